@@ -20,7 +20,7 @@ evaluated on the run of the `go` model in the compared mode.  Excluded are exact
 
 `sharedLexemesOnly U comments noSemis src`: evaluated on the run of the `xgo` model in the compared
 mode.  Excluded: ILLEGAL tokens, keywords (TPL has none), `c"…"`/`py"…"`, `*` directly followed by
-`*` (TPL: `**`), comments that contain a CR (the scanners strip differently), `#/`, `#*`, and
+`*` (TPL: `**`), `/*…*/` and `#…` comments that contain a CR (the scanners strip differently), `#/`, `#*`, and
 comments whose text continues with "line " after two bytes (line directives: only XGo reports
 their errors).
 -/
@@ -78,12 +78,14 @@ def goLexemesOnly (U : UCls) (comments noSemis : Bool) (src : Array UInt8) : Boo
   goRunOK { d := .go, comments := comments, noSemis := noSemis, U := U } src (scanFuel src) (initSt src)
 
 /-- C32: a comment with source span `[p, e)` that both scanners treat alike: no carriage return
-in it (the scanners strip differently), not `#/…`, `#*…` (XGo scans these with its `//` / `/*`
+in a `/*…*/` or `#…` comment (the scanners strip differently; in a `//…` comment both remove all
+CRs), not `#/…`, `#*…` (XGo scans these with its `//` / `/*`
 branch), and its text does not continue with "line " after two bytes (XGo interprets line
 directives — also `# line …` — and reports their errors; TPL does not) -/
 def commentSpanOK (src : Array UInt8) (p e : Nat) : Bool :=
   let span := (src.toList.drop p).take (e - p)
-  !span.contains 0x0D && !linePrefix.isPrefixOf (span.drop 2) &&
+  !((byteAt src p == 0x23 || byteAt src (p + 1) == 0x2A) && span.contains 0x0D) &&
+    !linePrefix.isPrefixOf (span.drop 2) &&
     !(byteAt src p == 0x23 && (byteAt src (p + 1) == 0x2F || byteAt src (p + 1) == 0x2A))
 
 /-- C32: local condition on one token of the xgo run -/
